@@ -372,6 +372,9 @@ func runPoolWorkload(r *gen.R, c poolCfg, emit func(string)) {
 		rec.add("h.connclosed", "", conn.ClosedCount())
 		wg.Wait()
 	}
+	// timers of query events created shortly before the last Shutdown still fire (and are refused):
+	// let them do so while this workload's recorder is attached, not the next one's
+	time.Sleep(10 * time.Millisecond)
 	flushNotes(rec, emit)
 }
 
